@@ -64,6 +64,42 @@ func (g *metaGenState) content() []byte {
 	return c
 }
 
+// a storage-level byte range (End exclusive): explicit, open-ended, suffix; biased to the content sizes in use
+// so that part boundaries, whole parts, the object end and unsatisfiable ranges are all hit
+func (g *metaGenState) rng() (string, string) {
+	r := g.r
+	sizes := []int{0, 1, 2, 8, 16, 30, 32, 33, 64, 65, 96, 128}
+	for _, c := range g.contents {
+		sizes = append(sizes, len(c))
+	}
+	pick := func() int {
+		v := sizes[r.Intn(len(sizes))]
+		switch r.Intn(6) {
+		case 0:
+			v += sizes[r.Intn(len(sizes))]
+		case 1:
+			v = r.Intn(v + 2)
+		case 2:
+			v++
+		}
+		return v
+	}
+	switch r.Intn(10) {
+	case 0, 1, 2: // suffix: last n bytes
+		return "-", strconv.Itoa(pick())
+	case 3, 4: // open ended
+		return strconv.Itoa(pick()), "-"
+	case 5:
+		return "-", "-"
+	default:
+		a, b := pick(), pick()
+		if a > b && r.Chance(85) {
+			a, b = b, a
+		}
+		return strconv.Itoa(a), strconv.Itoa(b)
+	}
+}
+
 func (g *metaGenState) ref(list []int) string {
 	if len(list) == 0 || g.r.Chance(5) {
 		return "#" + strconv.Itoa(g.r.Intn(len(g.ops)+1))
@@ -126,7 +162,7 @@ func metaGenHistory(r *Rng, profile string) string {
 	}
 	n := 12 + r.Intn(45)
 	// weights per profile
-	w := map[string]int{"put": 22, "get": 14, "head": 6, "del": 10, "delv": 6, "ver": 5, "lsv": 5, "ls": 3, "cmu": 4, "up": 8, "cpl": 4, "abt": 1, "app": 6, "cp": 5, "rb": 1, "mb": 1}
+	w := map[string]int{"put": 22, "get": 14, "head": 6, "del": 10, "delv": 6, "ver": 5, "lsv": 5, "ls": 3, "cmu": 4, "up": 8, "cpl": 4, "abt": 1, "app": 6, "cp": 4, "rb": 1, "mb": 1, "getr": 5, "upc": 5, "cpr": 3}
 	switch profile {
 	case "c02":
 		w["ver"], w["delv"], w["del"], w["lsv"], w["get"] = 10, 14, 10, 9, 16
@@ -247,6 +283,29 @@ func metaGenHistory(r *Rng, profile string) string {
 		case "cp":
 			g.ops = append(g.ops, "cp:"+bucket()+":"+key()+":"+g.vref()+":"+bucket()+":"+key())
 			g.putOps = append(g.putOps, i)
+		case "cpr":
+			s, e := g.rng()
+			g.ops = append(g.ops, "cpr:"+bucket()+":"+key()+":"+g.vref()+":"+bucket()+":"+key()+":"+s+":"+e)
+			g.putOps = append(g.putOps, i)
+		case "getr":
+			s, e := g.rng()
+			g.ops = append(g.ops, "getr:"+bucket()+":"+key()+":"+g.vref()+":"+s+":"+e)
+		case "upc":
+			if len(g.uploads) == 0 {
+				continue
+			}
+			u := g.uploads[len(g.uploads)-1-r.Intn(min(2, len(g.uploads)))]
+			b, k := metaOpBK(g.ops[u])
+			pn := 1 + len(g.upParts[u])
+			if r.Chance(15) {
+				pn = 1 + r.Intn(4)
+			}
+			g.upParts[u] = append(g.upParts[u], pn)
+			s, e := "-", "-"
+			if r.Chance(65) {
+				s, e = g.rng()
+			}
+			g.ops = append(g.ops, "upc:"+bucket()+":"+key()+":"+g.vref()+":"+b+":"+k+":#"+strconv.Itoa(u)+":"+strconv.Itoa(pn)+":"+s+":"+e)
 		}
 	}
 	// closing sweep: read everything back
@@ -294,10 +353,8 @@ func (p *metaProp) Gen(r *Rng, tier string, n int) []string {
 }
 
 func (p *metaProp) Run(in string, scratch string) Result {
-	stack := "fs"
-	if crc32.ChecksumIEEE([]byte(in))%3 == 0 {
-		stack = "sql"
-	}
+	stacks := []string{"fs", "sql", "zstd", "fs", "tink", "sql", "zstdtink", "zstdsql", "tinkzstd"}
+	stack := stacks[crc32.ChecksumIEEE([]byte(in))%uint32(len(stacks))]
 	m, err := metaNewRun(scratch, stack)
 	if err != nil {
 		return Result{Out: "SETUP-ERROR " + err.Error(), Oracle: "FAIL:setup " + err.Error()}
